@@ -72,6 +72,18 @@ type world struct {
 	evIdx       int
 	stopped     bool
 	pendingPath string
+	sleepN      int64
+}
+
+// sleep advances the fake clock. Every sleep carries its own sub-millisecond
+// offset so that two timers of the system under test (for instance the write
+// deadline left over from the previous response and the read deadline of the
+// next request) never expire at exactly the same fake instant: the order in
+// which the runtime fires simultaneous timers is the one thing a plan cannot
+// determine (seen as a 1-in-3 log divergence in the determinism self-test).
+func (w *world) sleep(d time.Duration) {
+	w.sleepN++
+	time.Sleep(d + time.Duration(1009+7919*w.sleepN)*time.Nanosecond)
 }
 
 func (w *world) logf(format string, args ...any) {
@@ -117,7 +129,7 @@ func (w *world) stopServer() {
 		}
 	}
 	synctest.Wait()
-	time.Sleep(50 * time.Millisecond)
+	w.sleep(50 * time.Millisecond)
 	synctest.Wait()
 	done := make(chan struct{})
 	srv := w.srv
@@ -143,7 +155,7 @@ func (w *world) stopServer() {
 			}
 			deadline = time.Now().Add(90 * time.Second)
 		}
-		time.Sleep(100 * time.Millisecond)
+		w.sleep(100 * time.Millisecond)
 	}
 }
 
@@ -379,7 +391,7 @@ func (w *world) deliver(cc *clientConn, s *sent, wire []byte, cuts []int, gaps [
 				cc.dirty, cc.dirtyWhy = true, "client stalled mid-request"
 				verifh.Count("fault.request-spans-read-timeout", 1)
 			}
-			time.Sleep(time.Duration(g) * time.Millisecond)
+			w.sleep(time.Duration(g) * time.Millisecond)
 			synctest.Wait()
 		}
 		verifh.Count("fault.fragmented-delivery", 1)
@@ -604,7 +616,7 @@ func (w *world) await(cc *clientConn) {
 	}
 	waited := time.Duration(0)
 	for owed() != nil && !cc.readEnded() && !cc.dirty && waited < responseBound {
-		time.Sleep(time.Second)
+		w.sleep(time.Second)
 		waited += time.Second
 		synctest.Wait()
 		w.harvest(cc)
@@ -665,7 +677,7 @@ func (w *world) await2(cc *clientConn) {
 	w.harvest(cc)
 	waited := time.Duration(0)
 	for len(cc.pending) > 0 && cc.pending[0].judge && !cc.readEnded() && waited < responseBound && w.viol == nil {
-		time.Sleep(time.Second)
+		w.sleep(time.Second)
 		waited += time.Second
 		synctest.Wait()
 		w.harvest(cc)
@@ -764,7 +776,7 @@ func (w *world) run() {
 	verifrt.ResetMeter(0)
 
 	if w.plan.StartJumpS > 0 {
-		time.Sleep(time.Duration(w.plan.StartJumpS) * time.Second)
+		w.sleep(time.Duration(w.plan.StartJumpS) * time.Second)
 	}
 	w.startServer()
 	synctest.Wait()
@@ -803,7 +815,7 @@ func (w *world) run() {
 			if ev.SleepMs >= 3600_000 {
 				verifh.Count("fault.clock-jump(hours)", 1)
 			}
-			time.Sleep(time.Duration(ev.SleepMs) * time.Millisecond)
+			w.sleep(time.Duration(ev.SleepMs) * time.Millisecond)
 			synctest.Wait()
 			for _, cc := range w.all { // slice order, never map order
 				if !cc.closed {
@@ -937,7 +949,7 @@ func (w *world) run() {
 		for _, cc := range w.all {
 			cc.setPause(false)
 		}
-		time.Sleep(2 * time.Second)
+		w.sleep(2 * time.Second)
 		synctest.Wait()
 		if w.stopped {
 			w.startServer()
